@@ -1002,7 +1002,7 @@ func check(c *Ctx, r *Report) error {
 	r.Coverage["database_keys"] = len(names)
 	r.Rule = "every database key (ThreadLookup, ToMillimetre) bit-exact against the row regenerated from the source and against the designation (M<d>x<P> parsed; ASME B1.1 / B1.20.1 reference tables); SawTooth on dyadic / multiple-of-period / next-to-the-jump / random arguments; the helical mapping observed through a recording probe profile (on the axis, theta = +-pi, end planes, dyadic, far outside, thread zone; starts 0, +-1..+-4; straight and NPT-tapered; invalid constructor arguments); ISOThread profile and full Screw3D values near flanks / crests / roots / strip edges against the Gallina model; helix invariance, z-periodicity, handedness on long screws; mating of external radius-tol against the nut material of internal radius+tol for every row x tolerances {0, 1%, 25%, 100% of the pitch}; obj.Bolt against obj.Nut placed whole pitches along the thread; HISTORIES: interleaved calls of every obj generator that looks a thread up (ThreadedCylinder, Nut, Bolt; hex/knurl; metric, unified, pipe designations; tolerances > 0 and 0; several rounds), after every call every database key bit-identical (entry, hex sizes, ToMillimetre, ToMillimetre twice) to the snapshot of the fresh database, and the database after the histories through the db correspondence again. non-trivial = every case; distinct by exact input bits."
 	r.Trusted = append(r.Trusted,
-		"translator harness/threadgen (go/parser + go/constant, symbolic execution of loop-free Go: helpers followed, locals / keyed literals / named constants / table-driven loops normalised away): rows and the Add/ToMillimetre bodies of sdf/screw.go -> coq/Generated/Threads.v; SawTooth, DtoR, Screw3D, ScrewSDF3.Evaluate, ISOThread -> coq/Generated/ThreadExpr.v, proved equal to the hand model for all arguments in any number system (Sdf/ScrewEq.v); the construction of obj.Nut / obj.Bolt -> coq/Generated/ObjThread.v (calls returning (shape, error) taken to succeed) - all on every run",
+		"translator harness/threadgen (go/parser + go/constant, symbolic execution of loop-free Go: helpers followed, locals / keyed literals / named constants / table-driven loops normalised away): rows and the Add/ToMillimetre bodies of sdf/screw.go -> coq/Generated/Threads.v; SawTooth, DtoR, Screw3D, ScrewSDF3.Evaluate, ISOThread -> coq/Generated/ThreadExpr.v, proved equal to the hand model for all real arguments (Sdf/ScrewEq.v: by conversion, else by real arithmetic); the construction of obj.Nut / obj.Bolt -> coq/Generated/ObjThread.v (calls returning (shape, error) taken to succeed) - all on every run",
 		"hand model coq/Sdf/Screw.v: SawTooth, Screw3D, ScrewSDF3.Evaluate, ISOThread vertex list are the translated source (theorems) AND run against the implementation at FOps (mapping bit-exact); Polygon smoothing (sdf/poly.go), the exhaustive polygon distance (sdf/mesh2.go) and pvn/pvs (Polygon.Add / Smooth) stay tied by differential execution only: profile/screw values within 1e-10*(radius+pitch) because Polygon2D walks a quadtree of clipped segments",
 		"Coq port of Go math (coq/Num/GoMath.v): sqrt, atan, atan2, tan, sin, cos, acos, floor, max",
 		"reference tables ASME B1.1 (UNC/UNF) and B1.20.1 (NPT) typed in coq/Sdf/ThreadDB.v and in the harness")
